@@ -78,11 +78,11 @@ pub fn parse_dxtn<'a>(
                 size: 0,
             });
         }
-        if (offset + size) as usize > original_input.len() {
+        if (offset as usize + size as usize) > original_input.len() {
             error!(
                 "Offset+size of mipmap {} is out of bounds! {} > {}",
                 i,
-                offset + size,
+                offset as u64 + size as u64,
                 original_input.len()
             );
             return Err(Error::OutOfBounds {
@@ -91,7 +91,7 @@ pub fn parse_dxtn<'a>(
             });
         }
 
-        let image_bytes = &original_input[offset as usize..(offset + size) as usize];
+        let image_bytes = &original_input[offset as usize..(offset as usize + size as usize)];
         // DXT stores 4x4 blocks: a dimension that is not a multiple of 4 is rounded up
         let (width, height) = blp_header.mipmap_size(i);
         let blocks_n = (width as usize).div_ceil(4) * (height as usize).div_ceil(4);
